@@ -29,9 +29,14 @@ NA = [
  {"property_id": "C18", "reason": "needs symbolic hash seeds through SipHash and hashbrown probing (a single concrete map operation already costs 90-290 s); what remains is a data-flow argument, i.e. a different technique"},
 ]
 NA_OPTIONAL = {
- "C14": "parsing totality needs the tokenizer / parser on symbolic text; tokenize on 4 symbolic bytes and extract_near on 4 bytes did not conclude in 40 min / 33 GB (probes 20-21); no decisive kernel is within reach",
- "C20": "layout / case / clause-order equivalence is a relation between two tokenizer + parser runs on symbolic text, which does not conclude (probe 21); the token-level parser harnesses built for C13 do not decide it",
- "C17": "record contents need core::fmt / serde_json writers (too large); no decisive kernel concluded",
+ "C01": "harnesses built (c01_split_*: real ColumnParsing::extract on a harness-made ParsingInput) but only the BOOLEAN one concluded (12 min); INT/DEFAULT/array shapes exhaust 15-25 min / 10+ GB in CBMC (symbolic field bytes through i64::from_str, heap-held Vec<Value>); the regex engine cannot even be code-generated by Kani (compiler ICE)",
+ "C02": "harness built (c02_json_*: JsonAccess::get_value + convert_from_json on a constructed serde_json::Value) concludes only after 24 min for one shape; object field steps are unreachable (IndexMap over hashbrown) and serde_json's parser is far beyond reach",
+ "C08": "DistinctValues::add over three 1-2-column tuples on a Vec-backed set shim did not conclude in 15 min / 8 GB (clone + equality of heap-held Vec<Value>); the select engine around it needs a second loop iteration (unwind 3), which never concludes",
+ "C10": "real FollowFileIterator::next over an I/O shim (symbolic file growing under a symbolic append/poll schedule) was built; CBMC was OOM-killed at 40 GB for a 2-byte file (String growth + symbolic-length copies), also with fixed content and only the schedule symbolic",
+ "C12": "real FileExecutor::execute + std::io::Lines over the I/O shim was built; symbolic execution reaches 5.5 M steps in the drop glue of io::Result<String> (io::Error's boxed dyn Error) for every line and does not conclude in 25 min; std::io::Lines::next cannot be stubbed (generic trait impl)",
+ "C14": "parsing totality needs the tokenizer / parser on symbolic text; tokenize on 4 symbolic bytes and extract_near on 4 bytes did not conclude in 40 min / 33 GB (DESIGN.md probes 20-21), and the token-level parser harnesses built for C13 explore the recursive-descent parser to the unwinding bound on every token (no verdict in 10 min)",
+ "C19": "same harness family as C12 (interrupt after k consumed lines, k symbolic, files fixed): no verdict in 25 min for the same reason",
+ "C20": "layout / case / clause-order equivalence is a relation between two tokenizer + parser runs on symbolic text, which does not conclude (probe 21); the token-level parser harnesses do not conclude either",
 }
 
 def main():
